@@ -227,31 +227,11 @@ def rule_progress(R):
     R.floor("progress", nsites, 4, "transport sites in the call tree of cancel-safe operations")
 
 
-def rule_atomic(R):
+def clause_deliver_before_await(R, prefix):
+    """a consumed inbound PUBLISH is reported to the caller before the next await point (shared with C04)"""
     f = R.f
-    for op in ops.ENQ_OPS:
-        P = ops.pipeline(f, op)
-        code = P.code
-        if not P.alloc_sites or not P.retains:
-            R.ob("atomic/%s" % op, False, "allocation or enqueue not found in %s" % op, where=P.fn.span)
-            continue
-        ends = [c.bb for c in P.retains]
-        if op == "publish":
-            ends = [bb for (bb, j, v, sp) in P.quota_stores] or ends
-        region = code.between([code.calls[a].target if a in code.calls else a for a in P.alloc_sites], ends)
-        ys = sorted(region & code.yield_blocks())
-        R.ob("atomic/%s" % op, not ys,
-             "no await point between identifier allocation and the %s in %s (a request is either fully enqueued or "
-             "leaves no trace)%s" % ("quota decrement" if op == "publish" else "enqueue", op,
-                                     "" if not ys else ": yield at %s" % code.line(ys[0])),
-             where=code.line(P.alloc_sites[0]))
-    hb, sw = outq.inbound_handler(f)
-    my = f.may_yield()
-    R.ob("atomic/handler", hb.name not in my, "the inbound packet handler contains no await point", where=hb.span)
     cm = roles.conn_methods(f)
     pb, pcode = cm["process_received_packet"]
-    R.ob("atomic/process", pb.name not in my and not pb.is_async,
-         "process_received_packet (take packet, handle, report) contains no await point", where=pb.span)
     # a consumed inbound PUBLISH is reported to the caller before the next await point: its length lives only in a local,
     # the packet is already out of the reader and its acknowledgement queued -- a cancellation in between would
     # acknowledge a message that is never delivered
@@ -278,11 +258,39 @@ def rule_atomic(R):
                 bwd = code.coreach(reports, avoid=[c.bb])
                 ys = (fwd & bwd) & code.yield_blocks()
                 ok = not ys
-            R.ob("atomic/deliver/%s#%d" % (name, n), ok,
+            R.ob("%s/%s#%d" % (prefix, name, n), ok,
                  "in Connection::%s an inbound PUBLISH taken out of the reader (process_received_packet -> Some(length)) is "
                  "returned to the caller with no await point in between%s" % (name, "" if not ys else ": yield at %s" % code.line(sorted(ys)[0])),
                  where=c.span)
-    R.floor("atomic/deliver", n, 1, "callers of process_received_packet")
+    R.floor(prefix, n, 1, "callers of process_received_packet")
+
+
+def rule_atomic(R):
+    f = R.f
+    for op in ops.ENQ_OPS:
+        P = ops.pipeline(f, op)
+        code = P.code
+        if not P.alloc_sites or not P.retains:
+            R.ob("atomic/%s" % op, False, "allocation or enqueue not found in %s" % op, where=P.fn.span)
+            continue
+        ends = [c.bb for c in P.retains]
+        if op == "publish":
+            ends = [bb for (bb, j, v, sp) in P.quota_stores] or ends
+        region = code.between([code.calls[a].target if a in code.calls else a for a in P.alloc_sites], ends)
+        ys = sorted(region & code.yield_blocks())
+        R.ob("atomic/%s" % op, not ys,
+             "no await point between identifier allocation and the %s in %s (a request is either fully enqueued or "
+             "leaves no trace)%s" % ("quota decrement" if op == "publish" else "enqueue", op,
+                                     "" if not ys else ": yield at %s" % code.line(ys[0])),
+             where=code.line(P.alloc_sites[0]))
+    hb, sw = outq.inbound_handler(f)
+    my = f.may_yield()
+    R.ob("atomic/handler", hb.name not in my, "the inbound packet handler contains no await point", where=hb.span)
+    cm = roles.conn_methods(f)
+    pb, pcode = cm["process_received_packet"]
+    R.ob("atomic/process", pb.name not in my and not pb.is_async,
+         "process_received_packet (take packet, handle, report) contains no await point", where=pb.span)
+    clause_deliver_before_await(R, "atomic/deliver")
 
 
 def rule_enq(R):
